@@ -298,7 +298,7 @@ def _canon_len(e: ast.AST) -> ast.AST:
 
 
 def r10_4(repo: Repo) -> RuleResult:
-    rr = RuleResult("R10.4", "affine indices `A[v + c]` inside `for v in range(lo, len(A) - d)` stay within [0, len(A))", floor=10)
+    rr = RuleResult("R10.4", "affine indices `A[v + c]` inside `for v in range(lo, len(A) - d)` stay within [0, len(A))", floor=8)
     for f in njit_functions(repo):
         env = _len_env(f)
         pm = None
